@@ -50,7 +50,12 @@ func TestAutoVerify(t *testing.T) {
 		for i := 0; i < ncand; i++ {
 			c := adv.Cand{Ev: rapid.IntRange(0, n-1).Draw(rt, "ev"), Ask: -1}
 			c.Q = rapid.IntRange(c.Ev, n-1).Draw(rt, "q")
-			switch rapid.IntRange(0, 3).Draw(rt, "style") {
+			switch rapid.IntRange(0, 4).Draw(rt, "style") {
+			case 4: // replayed for a never-inserted digest next to its own (same hyper subtree), usually with on-path help
+				c.Near = 1 + rapid.OneOf(rapid.IntRange(24, 60), rapid.IntRange(0, 255)).Draw(rt, "near-bit")
+				if rapid.IntRange(0, 3).Draw(rt, "onpath") != 0 {
+					c.Ops = append(c.Ops, adv.Op{Kind: "hist-onpath", A: rapid.IntRange(0, 63).Draw(rt, "a"), B: rapid.IntRange(0, 63).Draw(rt, "b")})
+				}
 			case 0: // a genuine answer replayed for another digest
 				c.Ask = rapid.IntRange(0, pool-1).Draw(rt, "ask")
 			case 1: // altered answer about its own digest
@@ -115,6 +120,9 @@ func execAuto(h H, rec *pbt.Rec) error {
 		asked := w.Pool(di)
 		if c.Ask >= 0 {
 			asked = w.Pool(c.Ask)
+		} else if c.Near > 0 {
+			k := (c.Near - 1) % 256
+			asked[k/8] ^= 1 << uint(7-k%8)
 		}
 		mu.Lock()
 		next = mr
@@ -136,7 +144,7 @@ func execAuto(h H, rec *pbt.Rec) error {
 			return fmt.Errorf("candidate %d (genuine answer for event %d at version %d, ops=%v, served as the answer to a query about digest %x…): client.MembershipAutoVerify returns true although that digest %s (answer: Exists=%v Actual=%d Query=%d Current=%d KeyDigest=%x…)",
 				ci, di, q, c.Ops, asked[:4], whyFalse(mr, asked, w), mr.Exists, mr.ActualVersion, mr.QueryVersion, mr.CurrentVersion, mr.KeyDigest[:min(4, len(mr.KeyDigest))])
 		}
-		nt := !truthful && (len(c.Ops) == 0 || c.Ask >= 0)
+		nt := !truthful && (len(c.Ops) == 0 || c.Ask >= 0 || c.Near > 0)
 		rec.CaseHash(logHash^pbt.Hash(c)*1099511628211, nt)
 		if c.Ask >= 0 && len(c.Ops) == 0 {
 			rec.Class("replayed-for-another-digest", 1)
